@@ -62,7 +62,7 @@ var props = map[string]PropSpec{
 			{Name: "solver.VP_C03_optim_skeleton", Kind: "E", Params: map[string]int{"maxsigns": 0, "W": 3}, Bounds: "3 clause skeletons over 5-6 variables, optional unit clause on any variable, cost over all variables with weights in [1,3] (solver-enumerated): several improvement rounds with weight-sorted bound constraints", Require: []string{"sat"}},
 		},
 		Thorough: []HarnessRun{
-			{Name: "solver.VP_C03_optim_skeleton", Kind: "E", Params: map[string]int{"maxsigns": 2, "W": 3}, Bounds: "the optimisation skeletons with 2 symbolic signs, cost weights in 1..3", Require: []string{"optimum"}},
+			{Name: "solver.VP_C03_optim_skeleton", Kind: "E", Params: map[string]int{"maxsigns": 2, "W": 3}, Bounds: "the optimisation skeletons with 2 symbolic signs, cost weights in 1..3", Require: []string{"sat"}},
 		},
 		Assumptions: []string{"cost literals only mention variables the problem declares (ParsePBConstrs cannot declare more); cost weights are non-negative (negative ones only arise through ParseOPB, see C13)"},
 		Outside:     "more than 3 variables; cost weights above 3; several PB constraints together with a cost function",
